@@ -182,4 +182,39 @@ def crossSumBestAtBeliefRow (S : Nat) (b : Nat → Rat) (row : List VList) (a : 
       ⟨addV acc.values best.values, a, acc.obs ++ [link best 0]⟩)
     ⟨List.replicate S 0, a, []⟩
 
+/-- `crossSumBestAtBelief(b, projs, &value)` over all actions: start with action 0, replace when an action's value is
+    strictly larger (`tmp > bestValue`); `rows a` = the projection row of action `a` -/
+def crossSumBestAtBeliefAll (S : Nat) (b : Nat → Rat) (rows : Nat → List VList) (A : Nat) : VEntry :=
+  let e0 := crossSumBestAtBeliefRow S b (rows 0) 0
+  ((List.range' 1 (A - 1)).foldl (fun (acc : VEntry × Rat) a =>
+      let h := crossSumBestAtBeliefRow S b (rows a) a
+      let t := dot S b (val h)
+      if acc.2 < t then (h, t) else acc) (e0, dot S b (val e0))).1
+
+/-! ## PBVI::operator()(model, beliefs) -/
+
+/-- the `for belief: bound = extractBestAtPoint(belief, begin, bound, end)` loop -/
+def extractBestLoop (S : Nat) : List (Nat → Rat) → Array VEntry → Nat → Array VEntry × Nat
+  | [], arr, bound => (arr, bound)
+  | b :: bs, arr, bound =>
+    let best := (bestAtPoint S b arr.toList).1
+    if bound ≤ best then extractBestLoop S bs (arr.swapIfInBounds best bound) (bound + 1)
+    else extractBestLoop S bs arr bound
+
+def pbviSelect (S : Nat) (beliefs : List (Nat → Rat)) (w : VList) : VList :=
+  let r := extractBestLoop S beliefs w.toArray 0
+  r.1.toList.take r.2
+
+/-- `PBVI::crossSum(projs[a], a, beliefs)`: one point-based backup per belief, then `extractDominated` -/
+def pbviAction (m : Pomdp) (beliefs : List (Nat → Rat)) (prev : VList) (a : Nat) : VList :=
+  extractDominated m.S (beliefs.map (fun b =>
+    crossSumBestAtBeliefRow m.S b ((List.range m.O).map (fun o => project m prev a o)) a))
+
+def pbviStep (m : Pomdp) (beliefs : List (Nat → Rat)) (prev : VList) : VList :=
+  pbviSelect m.S beliefs ((List.range m.A).flatMap (pbviAction m beliefs prev))
+
+def pbviRun (m : Pomdp) (beliefs : List (Nat → Rat)) : Nat → VF
+  | 0 => zeroVF m.S
+  | h+1 => pbviRun m beliefs h ++ [pbviStep m beliefs (vlist (pbviRun m beliefs h) ((pbviRun m beliefs h).length - 1))]
+
 end AITB.Plan
